@@ -417,6 +417,80 @@ ROUNDTRIP = ('DnsRecordDs', 'DnsRecordTxt', 'DnsRecordMx', 'DnsRecordRrsig', 'Dn
 COMPOSE_ONLY = ()
 
 
+def name_acceptance_unit():
+    """RFC 1035 2.3.4 / 3.1: a domain name on the wire is a sequence of labels of 1..63 octets closed by the zero octet of
+    the root label and is 255 octets or less in all. Stated on the real DnsNameUncompressed._parse with its label loop under
+    the progress contract of C19 (state after any number of iterations: 0 <= parsed_length <= len(buffer)): once the loop
+    has been left through the root label - every label before it was accepted - nothing that follows may reject a name of
+    at most 255 octets. (What one iteration rejects - label longer than 63, buffer too short, IDNA - is K1/C02.)"""
+    from checks import c19
+    from pyvc import frame as F, loops
+
+    def run():
+        from cryptoparser.dnsrec.record import DnsNameUncompressed as C
+        e1.setup()
+        c19.register_progress_contracts()
+        base = F.LOOPS[('DnsNameUncompressed._parse', 0)]
+
+        class LabelLoop(loops.ProgressLoop):
+            def on_break(self, frame, ctx, k):
+                P = E.cur()
+                P.name_wire_length = c19._parser_state(frame)[1]
+                return loops.ProgressLoop.on_break(self, frame, ctx, k)
+        F.LOOPS[('DnsNameUncompressed._parse', 0)] = LabelLoop(base.variables, base.measure, base.limit, base._inv, base.step)
+
+        def thunk():
+            P = E.cur()
+            buf, facts = V.base_seq('buf')
+            for f in facts:
+                P.assume(f)
+            P.inputs['buf'] = buf
+            P.buf = buf
+            P.top_class = C
+            P.name_wire_length = None
+            out = vc.outcome_of(lambda: I.call(C.parse_immutable, [buf], {}))
+            n = P.name_wire_length
+            if n is None:
+                return                                           # rejected inside an iteration, or cut: not this clause
+            P.reached_root_label = True
+            if out.kind == 'ret':
+                P.oblige('name: the consumed length is the wire length of the name', ops.as_int(out.value[1]) == n)
+            else:
+                P.oblige('name: all labels accepted and the root label read - only a name longer than 255 octets may still be '
+                         'rejected (raised %s)' % out.value.cls.__name__, n > 255)
+        res = vc.run_unit('dns-name-acceptance', thunk, max_paths=2000)
+        keep = [o for o in res.obligations if o['name'].startswith('name:')]
+        if not any(o['name'].startswith('name: the consumed length') for o in keep) and not res.unsupported:
+            res.unsupported.append('no accepting path through the root label was explored')
+        res.obligations = keep
+        return res
+
+    def native(seed=0, hints=()):
+        from cryptoparser.dnsrec.record import DnsNameUncompressed as C
+        for total in (1, 2, 64, 65, 129, 193, 250, 252, 253, 254, 255):
+            rest, wire = total - 1, b''
+            while rest > 0:
+                k = min(63, rest - 1)
+                if k == 0:
+                    break
+                wire += bytes([k]) + b'a' * k
+                rest -= k + 1
+            wire += b'\x00'
+            if len(wire) != total:
+                continue
+            call = 'DnsNameUncompressed.parse_immutable(<name of %d octets: labels of %s>)' % (total, [wire[0]] if total > 1 else [])
+            try:
+                o, n = C.parse_immutable(wire)
+            except Exception as ex:
+                return dict(reproduced=True, call=call, expected='accepted (RFC 1035: names of up to 255 octets)', observed=repr(ex)[:160], key='name length')
+            if n != total or bytes(o.compose()) != wire:
+                return dict(reproduced=True, call=call, expected='%d consumed, the same octets composed' % total, observed='%d, %s' % (n, bytes(o.compose()).hex()[:60]), key='name length')
+        return dict(reproduced=False)
+    return Unit('accept/dnsrec.record.DnsNameUncompressed (names of up to 255 octets)', run, replay=lambda inputs: native(0), search=native,
+                clause='K1a acceptance', functions=['DnsNameUncompressed._parse'])
+
+
+
 def keytag_full_unit(name='key_tag/rfc4034-appendix-B'):
     odd_known = listed(KF_ODD)
     return Unit(name, keytag_unit(odd_known), replay=keytag_replay(odd_known), search=keytag_search(odd_known),
@@ -439,6 +513,7 @@ def _units_body(tier, seed):
     out.append(Unit('parse_key/key-field-length', parse_key_unit(ed448_known), replay=parse_key_replay(ed448_known),
                     search=parse_key_search(ed448_known), clause='key field length', functions=['DnsRecordDnskey.parse_key']))
     out.append(rsa_key_layout_unit())
+    out.append(name_acceptance_unit())
     out.append(Unit('K6-header/dnsrec.record.DnsRecordDnskey', dnskey_header_unit(), clause='K6',
                     functions=['DnsRecordDnskey.compose', 'spec.dnskey']))
     UNCOVERED[:] = [
